@@ -26,7 +26,7 @@ PAT_SPAN = 'write_spans_snapshot_swap'
 
 SEQ = dict(
     quick=dict(gen='Cache.Gen_quick.cfg', maxops=3, replay_budget=6000, sim=60, simw=2, depth=70, limit=60, concs=1),
-    thorough=dict(gen='Cache.Gen_thorough.cfg', maxops=4, replay_budget=60000, sim=300, simw=8, depth=90, limit=60, concs=3),
+    thorough=dict(gen='Cache.Gen_thorough.cfg', maxops=3, replay_budget=60000, sim=300, simw=8, depth=90, limit=60, concs=3),
 )
 TRACES = dict(
     quick=dict(traces=30, chunk=30, threads=3, ops=4, par=1),
@@ -460,5 +460,7 @@ META = {
             'Entry-level windows (F17) and data races are outside this check.',
     'technique': 'TLA+ spec (Cache.tla, TraceCache.tla) + TLC exhaustive/simulation + replay of TLC histories on the real cache + '
                  'trace validation of recorded concurrent runs',
-    'quick_s': 150, 'thorough_s': 1500,
+    # measured only under a 20-40x overloaded machine (load average 100-600 on 16 cores): quick 543-911 s there; TLC state counts
+    # (quick ~0.2M, thorough ~12M generated) put an idle machine at about 1 min / 10 min
+    'quick_s': 60, 'thorough_s': 600,
 }
